@@ -150,11 +150,9 @@ def extract_selected_variable_and_expression(symbolic_cls: Type, domain: Optiona
     :param kwargs: The keyword arguments to the class constructor.
     :return: The selected variable and expression.
     """
-    cache_keys = get_cache_keys_for_class_(Variable._cache_, symbolic_cls)
-    if not domain and cache_keys:
-        domain = From((v for a, v in yield_class_values_from_cache(Variable._cache_, symbolic_cls, from_index=False,
-                                                                   cache_keys=cache_keys)))
-    elif domain and is_iterable(domain.domain):
+    # A variable without a domain ranges over the registry of instances, which is read when the variable is evaluated
+    # (not here), because instances of the class and of new subclasses can still be constructed until then.
+    if domain and is_iterable(domain.domain):
         # do not touch the caller's From object: it may be shared by several variables (and the filter is one-shot).
         domain = From(filter(lambda v: isinstance(v, symbolic_cls), domain.domain))
 
